@@ -34,7 +34,7 @@ mod state;
 #[cfg(feature = "verif")]
 pub mod verif {
     //! Verification hooks.
-    pub use super::live::{LiveActor, ToLiveActor, VerifDial};
+    pub use super::live::{LiveActor, ToLiveActor, VerifDial, VerifLiveSnapshot};
     pub use super::state::{Origin, SyncReason, VerifPeerState};
 }
 
@@ -249,6 +249,16 @@ impl Engine {
         };
 
         Ok(a.or(b))
+    }
+
+    /// Verification hook: ask the running live actor for its coordination state of a document.
+    #[cfg(feature = "verif")]
+    pub async fn verif_live_snapshot(&self, namespace: NamespaceId) -> Result<verif::VerifLiveSnapshot> {
+        let (reply, reply_rx) = oneshot::channel();
+        self.to_live_actor
+            .send(ToLiveActor::VerifSnapshot { namespace, reply })
+            .await?;
+        Ok(reply_rx.await?)
     }
 
     /// Handle an incoming iroh-docs connection.
